@@ -1,6 +1,6 @@
 //! cw3-fixed-multisig and cw3-flex-multisig (+ real cw4-group, cw20-base, sink) under exhaustive
 //! exploration: alphabet, reference and oracles for C03, C05, C06, C15.
-use crate::spec::*;
+use super::spec::*;
 use cosmwasm_std::{coin, to_json_binary, to_json_vec, BankMsg, Coin, CosmosMsg, Timestamp, Uint128, WasmMsg};
 use cw3::{ProposalListResponse, ProposalResponse, Status, Vote, VoteInfo, VoteListResponse, VoteResponse, VoterListResponse};
 use cw_utils::{Duration, Expiration};
@@ -180,6 +180,8 @@ pub struct Cfg {
     pub edits: Vec<GroupEdit>,
     pub editors: Vec<u8>,
     pub max_edits: u8,
+    /// group edits are only offered once a proposal exists and only in later blocks than its creation
+    pub edits_after_proposal: bool,
     pub funds: Vec<FundsA>,
     pub allow_amts: Vec<u8>,
     pub max_allow: u8,
@@ -217,6 +219,7 @@ impl Cfg {
             edits: vec![],
             editors: vec![],
             max_edits: 0,
+            edits_after_proposal: false,
             funds: vec![vec![]],
             allow_amts: vec![],
             max_allow: 4,
@@ -291,6 +294,8 @@ pub struct PObs {
     pub status: St,
     pub list_status: Option<St>,
     pub rev_status: Option<St>,
+    pub list_fixed: Option<u128>,
+    pub rev_fixed: Option<u128>,
     pub th: Th,
     pub total: u64,
     pub expires: ExpKey,
@@ -402,6 +407,8 @@ impl Cw3Model {
         let mut o = Obs::default();
         // full listing, both directions, paged
         let mut listed: BTreeMap<u64, St> = BTreeMap::new();
+        let mut listed_fx: BTreeMap<u64, u128> = BTreeMap::new();
+        let mut rev_fx: BTreeMap<u64, u128> = BTreeMap::new();
         let mut cursor: Option<u64> = None;
         for _ in 0..20 {
             match q::<_, ProposalListResponse>(w, &msa, &cw3::Cw3QueryMsg::ListProposals { start_after: cursor, limit: Some(30) }) {
@@ -413,6 +420,7 @@ impl Cw3Model {
                     for x in p.proposals {
                         o.list_ids.push(x.id);
                         listed.insert(x.id, St::from(&x.status));
+                        listed_fx.insert(x.id, prop_fixed_fp(&x));
                     }
                 }
                 Err(e) => {
@@ -433,6 +441,7 @@ impl Cw3Model {
                     for x in p.proposals {
                         o.rev_ids.push(x.id);
                         rev.insert(x.id, St::from(&x.status));
+                        rev_fx.insert(x.id, prop_fixed_fp(&x));
                     }
                 }
                 Err(e) => {
@@ -486,6 +495,8 @@ impl Cw3Model {
                         status: St::from(&p.status),
                         list_status: listed.get(&id).copied(),
                         rev_status: rev.get(&id).copied(),
+                        list_fixed: listed_fx.get(&id).copied(),
+                        rev_fixed: rev_fx.get(&id).copied(),
                         th,
                         total,
                         expires: ExpKey::from(&p.expires),
@@ -666,9 +677,13 @@ impl Cw3Model {
         for (pr, po) in r.props.iter().zip(o.props.iter()) {
             let (passes, canp, expired, tally) = self.implied(po, h, t);
             let over = tally.sum() > po.total as u128;
-            if cfg.props.c03 {
+            // in C06 runs the status oracle skips proposals hit by the known same-block finding (their total is wrong by D3)
+            if cfg.props.c03 && !(cfg.props.c06 && pr.same_block_change) {
                 if po.list_status != Some(po.status) || po.rev_status != Some(po.status) {
                     v.push(Violation::new("C03.status_same_in_all_proposal_queries", format!("proposal {}: Proposal query {:?}, ListProposals {:?}, ReverseProposals {:?}", po.id, po.status, po.list_status, po.rev_status)));
+                }
+                if po.list_fixed != Some(po.fixed) || po.rev_fixed != Some(po.fixed) {
+                    v.push(Violation::new("C03.proposal_same_in_all_proposal_queries", format!("proposal {}: threshold/total/expiry/content reported by Proposal, ListProposals and ReverseProposals differ", po.id)));
                 }
                 if over {
                     v.push(Violation::new("C03.ballots_exceed_total", format!("proposal {}: ballots {:?} total {}", po.id, tally, po.total)));
@@ -1007,7 +1022,8 @@ impl Model for Cw3Model {
         if s.w.height < H0 + 1 + cfg.blocks {
             out.push(Act::Advance);
         }
-        if s.r.edits < cfg.max_edits {
+        let edit_ok = !cfg.edits_after_proposal || s.r.props.last().map(|p| p.created_h < s.w.height).unwrap_or(false);
+        if s.r.edits < cfg.max_edits && edit_ok {
             for &by in &cfg.editors {
                 for e in 0..cfg.edits.len() as u8 {
                     out.push(Act::GroupUpdate { by, edit: e });
@@ -1267,7 +1283,8 @@ impl Model for Cw3Model {
                 if let Some(po) = pre.props.iter().find(|p| p.id == *id) {
                     let (passes, _, _, tally) = self.implied(po, h, t);
                     let pr = r.props[(*id - 1) as usize].clone();
-                    if cfg.props.c03 && (!passes || pr.executed) {
+                    let skip_d3 = cfg.props.c06 && pr.same_block_change;
+                    if cfg.props.c03 && !skip_d3 && (!passes || pr.executed) {
                         let tags = if tally.y == 0 { vec!["zero_yes".to_string()] } else { vec![] };
                         v.push(Violation::tagged("C03.execute_admitted_only_when_passed", format!("{a:?} accepted: threshold {:?} total {} tally {:?} executed {}", po.th, po.total, tally, pr.executed), tags));
                     }
@@ -1315,7 +1332,8 @@ impl Model for Cw3Model {
                 if let Some(po) = pre.props.iter().find(|p| p.id == *id) {
                     let (passes, _, expired, tally) = self.implied(po, h, t);
                     let pr = r.props[(*id - 1) as usize].clone();
-                    if (cfg.props.c03 || cfg.props.c05) && (!expired || passes || pr.executed) {
+                    let skip_d3 = cfg.props.c06 && pr.same_block_change;
+                    if (cfg.props.c03 || cfg.props.c05) && !skip_d3 && (!expired || passes || pr.executed) {
                         v.push(Violation::new(
                             if cfg.props.c03 { "C03.close_admitted_only_when_expired_unpassed" } else { "C05.close_only_expired_unpassed" },
                             format!("{a:?} accepted: expired={expired} ballots imply pass={passes} executed={} tally {:?}", pr.executed, tally),
